@@ -19,33 +19,22 @@ Proof. exact lenmod_table_ok. Qed.
 Print Assumptions C12_lenmod_table_ok.
 
 (** For EVERY string — including every truncation point of every code — the transliterated
-    parser (index loops, u16 accumulator) returns exactly what the grammar returns: the same
-    element list, the same error (truncated / unrecognised letter) — unless the u16 accumulator
-    overflows (panic) or a length modifier is repeated. *)
-Theorem C12_parse_refines : forall s,
-  impl_parse_codes s <> Err EPanic -> known_lenmod s = false ->
-  impl_parse_codes s = spec_parse_codes s.
+    parser (index loops, checked u16 accumulator, one optional length modifier) returns exactly
+    what the grammar returns: the same element list, the same error (truncated / unrecognised
+    letter / width above 65535).  No exclusions since the fixes 4f0a9b5 and 1bb3282. *)
+Theorem C12_parse_refines : forall s, impl_parse_codes s = spec_parse_codes s.
 Proof. exact parse_refines. Qed.
 Print Assumptions C12_parse_refines.
 
-Theorem C12_parse_width_overflow_refuted :
-  exists s es, impl_parse_codes s = Err EPanic /\ spec_parse_codes s = Ok es.
-Proof. exact parse_width_overflow_refuted. Qed.
-Print Assumptions C12_parse_width_overflow_refuted.
-
-(** ... and the accumulator overflows ONLY when the width (or precision) the grammar reads is
-    above 65535: the panic is confined to that class. *)
-Theorem C12_width_panic_only_if_big : forall s,
-  impl_field_width s = Err EPanic ->
-  exists n rest, spec_field_width s = Ok (WFixed n, rest) /\ (u16_max < n)%N \/
-                 spec_field_width s = Err ETrunc /\ (u16_max < decimal (fst (span is_digit s)))%N.
-Proof. exact field_width_panic_only_if_big. Qed.
-Print Assumptions C12_width_panic_only_if_big.
-
-Theorem C12_parse_lenmod_refuted :
-  exists s es c, impl_parse_codes s = Ok es /\ spec_parse_codes s = Err (EUnrec c) /\ known_lenmod s = true.
-Proof. exact parse_lenmod_refuted. Qed.
-Print Assumptions C12_parse_lenmod_refuted.
+(** 65535 is accepted, 65536 is the "too large" error (not a panic), `%lld` is rejected. *)
+Theorem C12_width_limit_examples :
+  impl_parse_codes [37; 54; 53; 53; 51; 54; 100]%N = Err ETooLarge /\
+  impl_parse_codes [37; 54; 53; 53; 51; 53; 100]%N =
+    Ok [ECode {| c_mkey := []; c_flags := no_flags; c_width := WFixed 65535; c_prec := None;
+                 c_type := GDecimal; c_caps := false |}] /\
+  impl_parse_codes [37; 108; 108; 100]%N = Err (EUnrec 108).
+Proof. exact width_limit_examples. Qed.
+Print Assumptions C12_width_limit_examples.
 
 (** Text without `%` is the output, in array and in object mode (any parser, any renderer). *)
 Theorem C12_literal_copied : forall pc so fc s,
@@ -91,57 +80,54 @@ Print Assumptions C12_int_roundtrip.
 
 (** %d %i %u %o %x %X: the saturating-u16 padding / precision / prefix arithmetic of
     render_integer and its three callers produces std.jsonnet's render_int / render_hex text
-    for every number, flag set, width and precision outside the four known classes. *)
+    for every number, flag set, width and precision with |floor x| < 2^63 (the one remaining
+    known class: `as i64` saturates). *)
 Theorem C12_int_format_refines : forall v c w p,
   wf_value v -> is_int_conv (c_type c) = true -> known_int_class v c = false ->
   impl_format_tmp v c w p = spec_format_tmp v c w p.
 Proof. exact int_format_refines. Qed.
 Print Assumptions C12_int_format_refines.
 
-Theorem C12_hex_alt_zero_refuted :
-  impl_render_hex false 0 0 0 true false false false = [48%N] /\
-  spec_render_hex 0 0 0 false false true false = [48%N; 120%N; 48%N].
-Proof. exact render_hex_alt_zero_refuted. Qed.
-Print Assumptions C12_hex_alt_zero_refuted.
-
 Theorem C12_i64_saturation_refuted :
   impl_render_decimal false (2 ^ 63) 0 0 false false <> spec_render_int false (2 ^ 63) 0 0 false false 10 [].
 Proof. exact render_saturation_refuted. Qed.
 Print Assumptions C12_i64_saturation_refuted.
 
-Theorem C12_hex_negative_fraction_refuted :
-  exists v c, wf_value v /\ known_int_class v c = true /\
-    impl_format_tmp v c 0 None = Ok [45; 49]%N /\ spec_format_tmp v c 0 None = Ok [45; 50]%N.
-Proof. exact hex_negative_fraction_refuted. Qed.
-Print Assumptions C12_hex_negative_fraction_refuted.
+(** %c: the negative-number guard and the saturating `as u32` agree with std.char, for every value. *)
+Theorem C12_char_format_refines : forall v c w p,
+  wf_value v -> c_type c = GChar -> impl_format_tmp v c w p = spec_format_tmp v c w p.
+Proof. exact char_format_refines. Qed.
+Print Assumptions C12_char_format_refines.
 
 (** Field width: the specified padding makes the text exactly max(width, natural length) code
-    points long, spaces on the side the `-` flag says; the code's padding (which counts UTF-8
-    bytes, truncated to u16) is the same for ASCII text shorter than 65536 ... *)
+    points long, spaces on the side the `-` flag says ... *)
 Theorem C12_width_exact : forall left w tmp,
   lenN (spec_pad left w tmp) = N.max w (lenN tmp) /\
   exists n, spec_pad left w tmp = if left then tmp ++ repeat ch_space n else repeat ch_space n ++ tmp.
 Proof. exact width_exact. Qed.
 Print Assumptions C12_width_exact.
 
-Theorem C12_pad_refines_ascii : forall left w tmp,
-  Forall (fun c => (c < 128)%N) tmp -> (lenN tmp < 65536)%N ->
-  impl_pad left w tmp = spec_pad left w tmp.
+(** ... and the code's padding (code points, clamped to u16) is that padding for ALL text
+    (fix 3912a6a); a parsed or `*` width is always <= 65535. *)
+Theorem C12_pad_refines : forall left w tmp,
+  (w <= u16_max)%N -> impl_pad left w tmp = spec_pad left w tmp.
 Proof. exact pad_refines. Qed.
-Print Assumptions C12_pad_refines_ascii.
+Print Assumptions C12_pad_refines.
 
-(** ... and too short by one column per extra UTF-8 byte otherwise. *)
-Theorem C12_width_bytes_refuted :
-  lenN (impl_pad false 5 [233%N]) = 4%N /\ lenN (spec_pad false 5 [233%N]) = 5%N.
-Proof. exact width_bytes_refuted. Qed.
-Print Assumptions C12_width_bytes_refuted.
+(** `%g`: the two unchecked u16 subtractions cannot underflow for any number and any precision
+    (fix dc97934); with precision <= 308 the whole arm returns text. *)
+Theorem C12_g_no_underflow : forall num den padding fpprec b s alt caps,
+  (fpprec <= 308)%N -> exists o, impl_render_shorter num den padding fpprec b s alt caps = Ok o.
+Proof. exact g_no_underflow. Qed.
+Print Assumptions C12_g_no_underflow.
 
-(** `%.0g`: `fpprec - 1` underflows u16. *)
-Theorem C12_g_underflow_refuted :
-  impl_render_shorter 1 2 0 0 false false false false = Err EPanic /\
-  spec_render_shorter 1 2 0 0 false false false false = [49]%N.
-Proof. exact g_underflow_refuted. Qed.
-Print Assumptions C12_g_underflow_refuted.
+(** The remaining float finding: from precision 309 on `10.0f64.powi(precision)` is +inf and the
+    debug_assert of render_integer fires (the model's EPanic). *)
+Theorem C12_float_pow_overflow_refuted :
+  impl_render_float 1 1 0 309 false false false true = Err EPanic /\
+  exists o, impl_render_float 1 1 0 308 false false false true = Ok o.
+Proof. exact float_pow_overflow_refuted. Qed.
+Print Assumptions C12_float_pow_overflow_refuted.
 
 (** Object mode: `*` is an error, a code without a key is an error, a key that is not a
     field (and has no dotted path) is an error, a key that is a field formats that field. *)
@@ -160,13 +146,13 @@ Qed.
 Print Assumptions C12_obj_mode_rules.
 
 (* ------------------------------------------------------------------ non-vacuity *)
-(** "%05.3d" satisfies the hypotheses of C12_parse_refines and parses to one code. *)
+(** "%05.3d" parses to one code on both sides. *)
 Example C12_parse_refines_nonvacuous :
   let s := [37; 48; 53; 46; 51; 100]%N in
-  impl_parse_codes s <> Err EPanic /\ known_lenmod s = false /\
+  impl_parse_codes s = spec_parse_codes s /\
   spec_parse_codes s = Ok [ECode {| c_mkey := []; c_flags := set_flag FZero no_flags; c_width := WFixed 5;
                                     c_prec := Some (WFixed 3); c_type := GDecimal; c_caps := false |}].
-Proof. cbv zeta. split; [vm_compute; discriminate|]. split; vm_compute; reflexivity. Qed.
+Proof. cbv zeta. split; vm_compute; reflexivity. Qed.
 
 (** "%*.*f" takes three values from the front and leaves the rest. *)
 Example C12_values_consumed_nonvacuous :
